@@ -38,7 +38,7 @@ class C13(HistProp):
             return (len(lines) - 1, 'everything was released but blocks obtained from the installed allocator were never handed back to it: ' + last)
         return None
 
-    def value_lines(self, tier, rng):
+    def value_lines(self, tier, rng, oversize=False):
         bufs, wf, nb, rnd = dec.corpus('quick', rng, rounds=1)
         ins = [b for b in wf + nb[:: (1 if tier == 'thorough' else 7)] + bufs[:300] if len(b) <= 300]
         lines = ['LOAD ' + gen.hexs(b) + ' 0 0 %d' % dec.HUGE for b in ins]
@@ -51,6 +51,12 @@ class C13(HistProp):
         for t in ts[:: (1 if tier == 'thorough' else 4)]:
             f = trees.fmt(t); s = len(trees.enc(t))
             lines += ['SER %s %d' % (f, s), 'SER %s %d' % (f, max(0, s - 1)), 'SERA ' + f, 'ROUND ' + f, 'RO ' + f]
+        if oversize:
+            # items whose encoding does not fit in size_t (implementation only; the tree syntax of the model driver has no length-only strings):
+            # cbor_serialize_alloc must report 0 / NULL without asking the allocator for anything
+            for sk in ('f(18446744073709551615)', 'g(18446744073709551611)', 'A[f(18446744073709551600),u8(1)]', 'A[f(18446744073709551610),u8(1)]', 'G(5,g(18446744073709551615))',
+                       'a[f(9223372036854775808),f(9223372036854775808)]', 'G(1,G(2,A[g(18446744073709551614)]))'):
+                lines += ['SIZES ' + sk, 'SERA ' + sk, 'SERA %s 1 0' % sk]
         for b in ins[::5]: lines.append('SD ' + gen.hexs(b))
         for fn in ('uint', 'negint', 'tag', 'array_start', 'half', 'double', 'bool', 'break'):
             for v in (0, 24, 65536, 1 << 40):
@@ -70,7 +76,7 @@ class C13(HistProp):
             if fails and envname.startswith('triple'): break
         # value-level operations: identical output under both allocators, no abort, SER reports zero requests
         rng = core.Rng(self.id); self._all(tier, rng)
-        lines = self.value_lines(tier, rng)
+        lines = self.value_lines(tier, rng, oversize=True)
         outs = {}
         for envname, env in (('tagging', None), ('arena', {'HALLOC': 'arena'})):
             o, rc, err = core.run_lines(ctx.harness, lines, env=env)
@@ -79,12 +85,16 @@ class C13(HistProp):
                 fails.append({'input': l, 'expected': 'a result', 'observed': 'aborted under the %s allocator (rc=%d)' % (envname, rc), 'why': (o[-1] if o else '') + ' ' + e[-900:]})
                 return fails[:20]
             outs[envname] = o
+        sizes = {}
         for l, a, b in zip(lines, outs['tagging'], outs['arena']):
             ctx.count(l, a); ctx.bump(l.split()[0])
             if a != b: fails.append({'input': l, 'expected': a[:300], 'observed': b[:300], 'why': 'result depends on which allocator is installed'})
             if l.startswith('LOAD ') and ((a.startswith('ERR') and 'live=0' not in a) or (a.startswith('OK') and 'final=0' not in a)):
                 fails.append({'input': l, 'expected': 'every block obtained is handed back to the installed free', 'observed': a[:300],
                               'why': 'blocks obtained from the installed allocator were never handed to the installed free'})
+            if l.startswith('SIZES '): sizes[l.split()[1]] = a
+            if l.startswith('SERA ') and sizes.get(l.split()[1]) == '0' and not a.startswith('0 0 null reqs=0 reqsize=0 live=0'):
+                fails.append({'input': l, 'expected': '0 0 null reqs=0 ... live=0', 'observed': a[:300], 'why': 'cbor_serialize_alloc of an item whose size does not fit asked the allocator for memory'})
             if l.startswith('SER ') and 'noalloc=1' not in a:
                 fails.append({'input': l, 'expected': 'noalloc=1', 'observed': a[:300], 'why': 'fixed-buffer serialization / size computation called the allocator'})
         from .common import mapkv_check
